@@ -97,3 +97,8 @@ CORPUS += [
     Mut('c04-mg94-beta-for-every-pair-that-is-not-synonymous', 'torchtree/evolution/substitution_model/codon.py', '', "            * (torch.where(self.synonymous == 1.0, alpha, ones))\n            * (torch.where(self.non_synonymous == 1.0, beta, ones))\n",
         "            * (torch.where(self.synonymous == 1.0, alpha, beta))\n", mode='text', expect=[('C04.B', 'MG94.q::each-parameter-selected-against-one')]),
 ]
+CORPUS += [
+    Mut('c04-benign-normalisation-in-a-method-of-its-own', 'torchtree/evolution/substitution_model/abstract.py', '', "    def eigen(self, Q: torch.Tensor) -> torch.Tensor:\n        return torch.linalg.eigh(Q)\n",
+        "    def normalised_q(self) -> torch.Tensor:\n        Q_unnorm = self.q()\n        return Q_unnorm / self.norm(Q_unnorm).unsqueeze(-1).unsqueeze(-1)\n\n    def eigen(self, Q: torch.Tensor) -> torch.Tensor:\n        return torch.linalg.eigh(Q)\n",
+        mode='text', benign=True),
+]
